@@ -79,8 +79,8 @@ def _fail_node(spec: dict):
 class C04(Property):
     pid = "C04"
     title = "Every well-formed workflow terminates, and failures terminate every step"
-    lean_targets = ["SFV.Props.C04"]
-    props_files = ["SFV/Props/C04.lean"]
+    lean_targets = ["SFV.Props.C04", "SFV.Props.C04Loop"]
+    props_files = ["SFV/Props/C04.lean", "SFV/Props/C04Loop.lean"]
     drivers = ["Drivers/Net.lean"]
     translators = []
     rule = ("random well-formed DAG workflows (sfv.rt.wfgen: 2..12 nodes from the real step classes — transformers, scatter/gather "
